@@ -401,6 +401,11 @@ def check_who_may_mutate(chk, repo):
                         n_sites += 1
                         chk.ob("C07.W.who-may-mutate", f"Circuit.{m}::registry store", who.within({"add_blackbox", "add_subcircuit", "fill_blackbox"}), file=FILE, func=f"Circuit.{m}", line=n.lineno,
                                fact={"method": m}, expect="only in add_blackbox/add_subcircuit/fill_blackbox")
+                elif isinstance(n, ast.AugAssign) and isinstance(n.op, ast.BitOr) and isinstance(t, ast.Attribute) and dotted(t) == "self.blackboxes":
+                    # `self.blackboxes |= {...}`: dict.__ior__ updates the registry object in place - a store, not a new registry
+                    n_sites += 1
+                    chk.ob("C07.W.who-may-mutate", f"Circuit.{m}::registry store", who.within({"add_blackbox", "add_subcircuit", "fill_blackbox"}), file=FILE, func=f"Circuit.{m}", line=n.lineno,
+                           fact={"method": m}, expect="only in add_blackbox/add_subcircuit/fill_blackbox")
                 elif isinstance(t, ast.Attribute) and dotted(t) in ("self.graph", "self.blackboxes") and m != "__init__":
                     n_sites += 1
                     chk.ob("C07.W.who-may-mutate", f"Circuit.{m}::rebinds {dotted(t)}", False, file=FILE, func=f"Circuit.{m}", line=n.lineno, fact={"method": m}, expect="only in __init__")
@@ -564,6 +569,21 @@ class Order:
                                     return True
         return False
 
+    def is_unread_manager(self, expr):
+        """The manager of a `with` statement is built by a plain function of the package (or held in a local variable): what it does
+        when the block is left by an exception is not visible in the shape of this statement."""
+        if isinstance(expr, ast.Name):
+            return True
+        if isinstance(expr, ast.IfExp):
+            return self.is_unread_manager(expr.body) or self.is_unread_manager(expr.orelse)  # `with nullcontext() if existed else <manager>:`
+        if not (isinstance(expr, ast.Call) and isinstance(expr.func, (ast.Attribute, ast.Name))):
+            return False
+        if isinstance(expr.func, ast.Attribute) and dotted(expr.func.value) not in ("self", "Circuit"):
+            return False
+        name = expr.func.attr if isinstance(expr.func, ast.Attribute) else expr.func.id
+        cands = [fi for (rel, q), fi in self.repo.funcs.items() if rel == FILE and q in (f"Circuit.{name}", name)]
+        return any(not any(norm(d).split(".")[-1] == "contextmanager" for d in fi.node.decorator_list) for fi in cands)
+
     def walk(self, stmts, dirty):
         for st in stmts:
             if isinstance(st, (ast.For, ast.While)):
@@ -606,6 +626,16 @@ class Order:
                     self.found = keep
                     self.rollbacks = getattr(self, "rollbacks", 0) + 1
                     continue
+                unread = [item.context_expr for item in st.items if self.is_unread_manager(item.context_expr)]
+                if unread:
+                    # the shape rule abstains inside the block: whether a rejected call leaves an edge behind is decided on
+                    # states by C07.A / C07.X / C07.R
+                    self.abstained = getattr(self, "abstained", []) + [norm(unread[0])[:80]]
+                    keep = self.found
+                    self.found = []
+                    dirty = self.walk(st.body, dirty)
+                    self.found = keep
+                    continue
                 dirty = self.walk(st.body, dirty)
                 continue
             adds, raises = self.classify(st)
@@ -635,6 +665,8 @@ def check_ordering(chk, repo):
             seen.add(kind)
             chk.ob("C07.O.check-before-mutate", f"Circuit.{m}::raise-capable after an edge-adding point::{kind}", False, file=FILE, func=f"Circuit.{m}", line=st.lineno,
                    fact={"statement": txt}, expect="every explicit-raise-capable point precedes the first edge-adding point (a rejected call adds no edge)")
+        for txt in getattr(o, "abstained", ()):
+            chk.note(f"C07.O.check-before-mutate abstains inside `with {txt}` in Circuit.{m}: the manager is built by a plain function, its exit behaviour is not visible in the statement (C07.A / C07.X / C07.R decide on states)")
         if not o.found:
             chk.ob("C07.O.check-before-mutate", f"Circuit.{m}::all raise-capable points precede edge insertion", True, file=FILE, func=f"Circuit.{m}", line=fi.node.lineno, fact={})
     # registry entry written only once the pins exist
